@@ -138,6 +138,16 @@ def logits_mask_choice(rng, C):
     return tuple([0.0] * C)
   if r < 0.62:
     return tuple([float('-inf')] * C)          # everything masked: a C-way tie
+  if r < 0.76:
+    # additive biases that are neither 0 nor -inf: the '-1e9' idiom, finite offsets, occasionally +inf (forces a class).
+    # The mask is ADDED to the scores (docstring), so these entries must move the arg-max / top-k set accordingly.
+    vals = np.array([0.0, -1e9, -30.0, 5.0, 2.5, 1e9, float('-inf')])
+    lm = vals[rng.randint(len(vals), size=C)]
+    if rng.rand() < 0.15:
+      lm[rng.randint(C)] = float('inf')
+    if np.all(np.isneginf(lm)):
+      lm[rng.randint(C)] = 5.0
+    return tuple(float(v) for v in lm)
   lm = np.where(rng.rand(C) < 0.4, float('-inf'), 0.0)
   if np.all(np.isinf(lm)):
     lm[rng.randint(C)] = 0.0
